@@ -13,8 +13,11 @@ package main
 
 import (
 	"fmt"
+	"regexp"
 	"strings"
 )
+
+var frameSkRe = regexp.MustCompile(`\bf[rm]k_\d+\b`)
 
 type forallRec struct {
 	full  string
@@ -206,6 +209,18 @@ func (c *Ctx) qfQuery(o Obl) string {
 	if hasQuant(o.Reach) {
 		return ""
 	}
+	// frame skolems (free Int constants frk_N / fmk_N introduced by frame obligations) are instantiation terms too
+	for _, m := range frameSkRe.FindAllString(cond, -1) {
+		dup := false
+		for _, t := range tuples {
+			if len(t.vals) == 1 && t.vals[0] == m {
+				dup = true
+			}
+		}
+		if !dup {
+			tuples = append(tuples, tuple{[]string{m}, []string{"Int"}})
+		}
+	}
 	// --- hypotheses ---
 	var sb strings.Builder
 	sb.WriteString(prelude)
@@ -259,4 +274,23 @@ func (c *Ctx) qfQuery(o Obl) string {
 	}
 	sb.WriteString("(assert " + o.Reach + ")\n(assert (not " + cond + "))\n(check-sat)\n")
 	return sb.String()
+}
+
+// registerForallFrame registers a frame equation `(forall ((q T)) (! body :pattern ...))` for instantiation.
+func (c *Ctx) registerForallFrame(full string) {
+	// full = (forall ((q_x Int)) (! BODY :pattern (...)))
+	const pfx = "(forall (("
+	if !strings.HasPrefix(full, pfx) {
+		return
+	}
+	rest := full[len(pfx):]
+	sp := strings.Index(rest, " ")
+	sym := rest[:sp]
+	bi := strings.Index(full, "(! ")
+	pi := strings.LastIndex(full, " :pattern ")
+	if bi < 0 || pi < 0 {
+		return
+	}
+	c.quantified = true
+	c.registerForall(full, []string{sym}, []string{"Int"}, full[bi+3:pi])
 }
